@@ -115,6 +115,24 @@ Applied(r) ==
 \* C11 (action property): a rejected call leaves everything as it was
 RejectIsNoop(r) == r.res = "err" => UNCHANGED <<tags, flags, jobs, use, during, toConv, cache, indexes, files, nextID, allS>>
 
+\* C12 conformance: the state a new Manager shows on the directory left by a kill is what the specification's Restart
+\* builds from the durable part of the killed process' state (r.pre), for one of the tag tables that can be on disk
+\* (the table of the last complete state file, or the one at the kill) and the loadable files in name order (r.order)
+TableOf(tt) == [t \in DOMAIN tt |-> [def |-> DefOf(tt[t].def), M |-> S(tt[t].M), convs |-> S(tt[t].convs)]]
+RestartOK(r) ==
+    LET pre == r.pre
+        F   == [f \in DOMAIN pre.files |-> EntrySet(pre.files[f])]
+        ca  == [c \in DOMAIN pre.cache |-> {<<e.id, S(e.v)>> : e \in S(pre.cache[c])}]
+        ord == IF "order" \in DOMAIN r THEN r.order ELSE <<>>
+        Ts  == {TableOf(pre.tags)} \cup {IF "expTags" \in DOMAIN r THEN TableOf(r.expTags) ELSE <<>>}      \* (an empty table is omitted by the harness)
+    IN \E T \in Ts : \E p \in DOMAIN T \cup {""} :
+        LET n == AfterRestart(F, ord, T, ca, S(pre.known), pre.queue, p) IN
+        /\ known' = n.known /\ queue' = <<>> /\ nextID' = n.nextID /\ allS' = n.allS
+        /\ indexes' = n.indexes /\ unmerge' = 0 /\ views' = <<>>
+        /\ tags' = n.bundle.tags /\ flags' = n.bundle.flags /\ jobs' = n.bundle.jobs /\ use' = n.bundle.use
+        /\ during' = n.bundle.during /\ toConv' = n.bundle.toConv
+        /\ cache' = ca
+
 TraceInit == l = 0 /\ Init
 
 TraceNext ==
@@ -122,7 +140,8 @@ TraceNext ==
     /\ l' = l + 1
     /\ LET r == Trace[l + 1] IN
        /\ Bind(r)
-       /\ \/ r.n = 0                                      \* TraceReset: new scenario, fresh data directory
+       /\ \/ /\ r.n = 0                                   \* TraceReset: new scenario (fresh data directory, or a crash copy)
+             /\ (r.ev.a = "CrashRestart" /\ r.res = "ok" /\ "pre" \in DOMAIN r) => (RestartOK(r) \/ Say("nonconf", r, "restart"))
           \/ /\ r.n # 0
              /\ (StepOK(r) \/ Say("nonconf", r, "step"))
              /\ Chk(RejectIsNoop(r), r, "C11.RejectIsNoop")
@@ -173,6 +192,13 @@ StaleWerePending(r) ==
                      \cup (IF c \in DOMAIN r.pre.jobs.conv.ids THEN S(r.pre.jobs.conv.ids[c]) ELSE {})
     IN \A c \in DOMAIN cache : stale(c) \subseteq queued(c)
 
+\* after a kill: is every stale cache entry explained by the complete index file of an import whose completion closure
+\* (which invalidates the cache) never ran?
+ImportLeftover(r) ==
+    HasField(r, "pre") /\ r.pre.jobs.import.phase = "gate" /\
+    LET stale(c) == {x[1] : x \in {y \in cache[c] : \E e \in Visible(indexes) : e[1] = y[1] /\ e[3] # y[2]}}
+    IN \A c \in DOMAIN cache : stale(c) \subseteq S(r.pre.jobs.import.upd) \cup S(r.pre.jobs.import.res)
+
 Props ==
     \/ l = 0
     \/ LET r == Trace[l]
@@ -209,7 +235,8 @@ Props ==
        /\ Chk(GraphWellFormed, r, "C11.GraphWellFormed")
        /\ Chk(\A t \in DOMAIN tags : t \in DOMAIN r.obs.infos /\ r.obs.infos[t].referenced = (tags[t].refBy # {}), r, "C11.ReferencedMirrors")
        \* ---- C16
-       /\ ChkI(ConvFresh, r, "C16.ConvFresh", IF r.ev.a = "CrashRestart" /\ StaleWerePending(r) THEN "pending" ELSE "")
+       /\ ChkI(ConvFresh, r, "C16.ConvFresh", IF r.ev.a # "CrashRestart" THEN "" ELSE IF ImportLeftover(r) THEN "import-leftover"
+                                                ELSE IF StaleWerePending(r) THEN "pending" ELSE "")
        /\ Chk(~flags.conv => ConvFresh, r, "C16.ConvFreshAtRest")
        /\ Chk(ConvEventually, r, "C16.ConvEventually")
        /\ Chk(r.noViewConvert => DetachStops, r, "C16.DetachStops")
